@@ -206,36 +206,43 @@ static double small_cell(void)
   VC_ASSUME(v <= 3);
   return (double)v;
 }
+#ifndef VC_MISS
+#define VC_MISS -1 /* index of a missing-coded truth, -1: none */
+#endif
+#define USED(i) ((long)(i) != (long)VC_MISS)
 void h_regression_formulas(void)
 {
   dvector *yt, *yp;
   double t[GMAX], p[GMAX];
   NewDVector(&yt, VC_N); NewDVector(&yp, VC_N);
   for(size_t i = 0; i < VC_N; i++) {
-    t[i] = yt->data[i] = small_cell();
+    t[i] = yt->data[i] = USED(i) ? small_cell() : (double)MISSING;
     p[i] = yp->data[i] = small_cell();
   }
+  const double n = (double)(VC_N - (VC_MISS >= 0 ? 1 : 0)); /* truths that are not missing-coded */
   double avg = 0, ssreg = 0, sstot = 0, sabs = 0, syi = 0, sxi = 0;
   for(size_t i = 0; i < VC_N; i++)
-    avg += t[i];
-  avg /= (double)VC_N;
-  for(size_t i = 0; i < VC_N; i++) {
-    ssreg += (p[i] - t[i]) * (p[i] - t[i]);
-    sstot += (t[i] - avg) * (t[i] - avg);
-    sabs += (p[i] > t[i]) ? (p[i] - t[i]) : (t[i] - p[i]);
-    syi += p[i] * (t[i] - avg);
-    sxi += t[i] * (t[i] - avg);
-  }
+    if(USED(i))
+      avg += t[i];
+  avg /= n;
+  for(size_t i = 0; i < VC_N; i++)
+    if(USED(i)) {
+      ssreg += (p[i] - t[i]) * (p[i] - t[i]);
+      sstot += (t[i] - avg) * (t[i] - avg);
+      sabs += (p[i] > t[i]) ? (p[i] - t[i]) : (t[i] - p[i]);
+      syi += p[i] * (t[i] - avg);
+      sxi += t[i] * (t[i] - avg);
+    }
   /* the ratios are defined and exactly representable (sxi equals sstot in exact arithmetic) */
   VC_ASSUME(sstot == 0.5 || sstot == 1 || sstot == 2 || sstot == 4 || sstot == 8);
   double r2 = R2(yt, yp), mse = MSE(yt, yp), rmse = RMSE(yt, yp), mae = MAE(yt, yp), bias = BIAS(yt, yp);
-  VC_CHECK("MSE == sum (prediction - truth)^2 / n", mse == ssreg / (double)VC_N);
-  double h_rmse = sqrt(ssreg / (double)VC_N);
+  VC_CHECK("MSE == sum (prediction - truth)^2 / n over the truths that are not missing-coded", mse == ssreg / n);
+  double h_rmse = sqrt(ssreg / n);
   VC_CHECK("RMSE == sqrt(MSE)", VC_SAME(rmse, h_rmse));
-  VC_CHECK("MAE == sum |prediction - truth| / n", mae == sabs / (double)VC_N);
-  VC_CHECK("R2 == 1 - sum (prediction - truth)^2 / sum (truth - mean truth)^2", r2 == 1 - ssreg / sstot);
+  VC_CHECK("MAE == sum |prediction - truth| / n over the truths that are not missing-coded", mae == sabs / n);
+  VC_CHECK("R2 == 1 - sum (prediction - truth)^2 / sum (truth - mean truth)^2 over the truths that are not missing-coded", r2 == 1 - ssreg / sstot);
   double b = 1 - syi / sxi;
-  VC_CHECK("BIAS == |1 - slope of prediction on truth|", bias == (b < 0 ? -b : b));
+  VC_CHECK("BIAS == |1 - slope of prediction on truth| over the truths that are not missing-coded", bias == (b < 0 ? -b : b));
   VC_CHECK("perfect prediction: errors 0 and R2 == 1", !(ssreg == 0) || (mse == 0 && mae == 0 && r2 == 1));
   VC_REACH();
 }
